@@ -231,7 +231,7 @@ pub static C04: PropDef = PropDef {
            allocation, under in-place-rehash conditions, or in a Clone/Drop/closure/Into/iterator callback",
     level: "fault_enumeration",
     cases_quick: 5000,
-    cases_thorough: 30_000,
+    cases_thorough: 120_000,
     strategy: c04_strategy,
     eval: eval_c04,
     nontrivial: c04_nontrivial,
@@ -705,7 +705,7 @@ pub static C13: PropDef = PropDef {
            at least one in-place rehash or tombstone reuse",
     level: "exploration",
     cases_quick: 16_000,
-    cases_thorough: 40_000,
+    cases_thorough: 300_000,
     strategy: c13_strategy,
     eval: eval_plain,
     nontrivial: c13_nontrivial,
@@ -1222,7 +1222,7 @@ pub static C18: PropDef = PropDef {
            superset for the portable match_tag; BitMask queries in element units; non-trivial = group of valid control bytes",
     level: "exploration",
     cases_quick: 30_000,
-    cases_thorough: 200_000,
+    cases_thorough: 600_000,
     strategy: c18_strategy,
     eval: eval_c18,
     nontrivial: c18_nontrivial,
